@@ -1,8 +1,10 @@
 #!/bin/bash
-# run every seeded change against the check of the property it was written for; one line per seed
+# run seeded changes against the check of the property each was written for; one line per seed
+# usage: tools/sweep_seeds.sh [seed-id ...]   (default: every directory under seeded/)
 cd /verif
-for d in seeded/*/; do
-  id=$(basename $d); prop=${id%-*}
+ids="$@"; [ -z "$ids" ] && ids=$(ls seeded)
+for id in $ids; do
+  prop=${id%-*}
   out=$(tools/try_seed.sh $id $prop quick 2>&1)
   rc=$(echo "$out" | grep -o "exit=[0-9]*" | tail -1)
   line=$(echo "$out" | grep -E "^C[0-9]+ quick" | tail -1)
